@@ -82,7 +82,7 @@ func TestC27(t *testing.T) {
 	ck := a.Sim.IBCKeeper.ClientKeeper
 	ibcKey := a.Sim.GetKey("ibc")
 
-	n := c.N(150, 300)
+	n := c.N(150, 800)
 	for i := 0; i < n; i++ {
 		if c.SkipCase(i) {
 			continue
